@@ -518,7 +518,8 @@ func convPath(s string) (string, error) {
 	if err != nil {
 		return "", err
 	}
-	return u.Path + "/v1/logs", nil
+	// The base URL may end with a slash: do not duplicate it.
+	return strings.TrimRight(u.Path, "/") + "/v1/logs", nil
 }
 
 // convInsecure parses s as a URL string and returns if the connection should
